@@ -62,8 +62,24 @@ CHECKS = {
    text="Seeded (dataset, query) pairs from a grammar of the supported fragment, each executed as a baseline and 8-24 variants: patterns permuted inside every BGP, fresh / stale / empty / adversarial statistics installed in cached_stats, every join node of the chosen plan reassigned (all-bind, all-hash, all-nested-loop, mixed), scan kinds swapped, star joins expanded, simulated rayon pool of 1..16 with PRNG-chosen splits and job order, hash seed per variant. Metamorphic oracle: the multiset of decoded rows equals the baseline's; queries never modify data.",
    note="Decides agreement between plans, not correctness of the common answer (that is C01, not claimed). Plan rewrites go through the public pieces the executor itself uses; FILTER/BIND are group-scoped as the quantifier requires.",
    technique="deterministic simulation: fault injection on statistics and plan choice, simulated thread pool, metamorphic comparison"),
+
+ "C09": dict(engine="rspsim-window", level="exploration", ref="6.7",
+   text="Seeded in-order event sources (bursts with equal timestamps, gaps <= slide, jumps far beyond the width, repeated items) into the real CSPARQLWindow with width, slide in 1..12 independently, delivered through the callback and, in 1 run in 12, through the channel with a consumer thread under a seeded shuttle schedule; interval oracle over the recorded history (each report = item set of one aligned interval not after its trigger, triggers strictly increasing, intervals non-decreasing and not repeated; with gaps <= slide every non-empty closing interval reported exactly once; channel = callback).",
+   note="Completeness is demanded for intervals containing at least one item (for width < slide empty windows are never created; whether an empty interval 'closes' is not observable from the statement).",
+   technique="deterministic simulation: simulated event source and clock, shuttle-scheduled consumer, history oracle"),
+ "C10": dict(engine="rspsim-single", level="exploration", ref="6.8",
+   text="The real RSPBuilder/RSPEngine with SimpleR2R, one window, N3 rules, RSTREAM/ISTREAM/DSTREAM, driven by a simulated in-order stream in single-thread mode and in multi-thread mode under seeded shuttle schedules (Random and PCT; every lock, send, receive and spawn in the three RSP files is a scheduling point through cfg(kolibrie_verif) import switches). A probe window yields the reported contents; per firing the expected emission is reference-BGP over content + reference closure, through a reference stream operator. Single-thread compared firing by firing; multi-thread must emit a concatenation of permutations of the same per-firing sets, terminate and not deadlock.",
+   note="Row order inside one firing is hash order and not part of the property; the engine is dropped, not stopped (stop() adds a non-window flush firing).",
+   technique="deterministic simulation: shuttle-controlled thread schedules of the real engine, per-firing reference model"),
+ "C11": dict(engine="rspsim-multi", level="exploration", ref="6.9",
+   text="The real multi-window engine (2-3 windows, optional static data, Wait / Steal / Timeout policies) in single-thread mode and in multi-thread mode (worker per window + coordinator) under seeded shuttle schedules with the simulated clock advanced between pushes so coordinator time-outs fire before, between and after the windows of a cycle (recv_timeout and Instant read the simulated clock). Soundness oracle per emitted row: its projection on each window block is an answer over content that window itself reported (one probe window per engine window), the static part is an answer over static data only; violations are classified (foreign-window-items / static-leak / unexplained-row) so one listed defect cannot mask another; all threads terminate.",
+   note="Soundness only (no completeness / timing / which-cycle requirement). The class foreign-window-items under shared vocabulary is a listed known finding (shared R2R store); half of the workloads use disjoint vocabularies where it cannot arise.",
+   technique="deterministic simulation: shuttle-controlled schedules + simulated clock driving coordinator time-outs, soundness oracle with classified violations"),
 }
 ENGINES = [
+  {"name": "rspsim-window", "path": "sim/ksim-db/src/rsp.rs", "serves_properties": ["C09"], "kind_free_text": "window simulator"},
+  {"name": "rspsim-single", "path": "sim/ksim-db/src/rsp.rs", "serves_properties": ["C10"], "kind_free_text": "single-window RSP engine under shuttle"},
+  {"name": "rspsim-multi", "path": "sim/ksim-db/src/rsp.rs", "serves_properties": ["C11"], "kind_free_text": "multi-window RSP engine under shuttle + simulated clock"},
   {"name": "dbsim-plan", "path": "sim/ksim-db/src/plan.rs", "serves_properties": ["C02"], "kind_free_text": "query-plan perturbation simulator (statistics, join algorithms, pool, hash seeds)"},
   {"name": "dbsim-load", "path": "sim/ksim-db/src/loader.rs", "serves_properties": ["C13"], "kind_free_text": "document loader simulator (sim-rayon, sim-crossbeam on shuttle, sysconf interposer)"},
   {"name": "dbsim-update", "path": "sim/ksim-db/src/update.rs", "serves_properties": ["C03", "C17"], "kind_free_text": "update-history simulator with reference Update model; hostile-client session simulator"},
